@@ -2,9 +2,11 @@
     Theorem-only file: every statement is closed by [exact] of a lemma proved elsewhere and is
     followed by Print Assumptions.  Model: Typed/Model.v (compileType, findTypedef, Type.mixin,
     identity, Find; tied to meta/compile.go, meta/core.go, meta/find.go, meta/util.go, val/format.go
-    by the C02 correspondence check); specification: Typed/Spec.v. *)
+    by the C02 correspondence check); specification: Typed/Spec.v.  Which identities an identityref
+    accepts: model Typed/FindId.v (meta/core.go FindIdentity, node/value.go toIdentRef). *)
 From Coq Require Import ZArith List Bool Strings.Byte Strings.String.
 From YV Require Import Typed.Model Typed.Spec Typed.Proofs Typed.Examples Check.C02Check.
+From YV Require Import Typed.FindId Typed.FindIdProofs Typed.FindIdExamples.
 Import ListNotations.
 Open Scope Z_scope.
 Open Scope string_scope.
@@ -131,3 +133,107 @@ Example C02_hyps_met :
     /\ model_meets_spec E_ok l_ok 3 = true.
 Proof. exact hyps_met. Qed.
 Print Assumptions C02_hyps_met.
+
+(** ** The identities an identityref accepts (meta.FindIdentity over Type.Base(), as node.NewValue
+    and the JSON/XML writers call it).  At full strength: a text is accepted exactly when it names
+    an identity derived, directly or indirectly, from every base (RFC 7950 9.10.2), for every
+    hierarchy of identities - any branching, any depth, any number of modules. *)
+Definition C02_identity_accept_full_statement : Prop :=
+  forall mods ids t,
+    find_identity (find_fuel mods) mods ids t <> FuelOut ->
+    ((exists j, find_identity (find_fuel mods) mods ids t = Found j) <->
+     (exists j, In j (accepted_inter mods ids) /\ snd j = t)).
+
+(** It holds for an identityref with one base (several bases: finding k=2) and every text but the
+    name of the base itself (finding k=5).  The out-of-fuel outcome is excluded by hypothesis and
+    cannot occur on a hierarchy without cycles (C02_identity_lookup_never_out_of_fuel). *)
+Theorem C02_identity_accept_partial : forall mods b t,
+  find_identity (find_fuel mods) mods [b] t <> FuelOut -> snd b <> t ->
+  ((exists j, find_identity (find_fuel mods) mods [b] t = Found j) <->
+   (exists j, In j (accepted_inter mods [b]) /\ snd j = t)).
+Proof. exact lookup_single_rfc. Qed.
+Print Assumptions C02_identity_accept_partial.
+
+(** the identity handed back carries the name asked for and is one the RFC accepts *)
+Theorem C02_identity_found_is_derived : forall mods b t j,
+  find_identity (find_fuel mods) mods [b] t = Found j -> snd b <> t ->
+  In j (accepted_inter mods [b]) /\ snd j = t.
+Proof. exact found_single_rfc. Qed.
+Print Assumptions C02_identity_found_is_derived.
+
+Theorem C02_identity_accept_refuted : ~ C02_identity_accept_full_statement.
+Proof. exact accept_full_refuted. Qed.
+Print Assumptions C02_identity_accept_refuted.
+
+(** The search itself, for any list of candidates and any fuel: a hit lies among the candidates or
+    below one of them and carries the name; a miss means no identity there carries it (no sibling
+    and no sub-tree is skipped, whatever comes before it). *)
+Theorem C02_identity_lookup_exhaustive : forall f mods cands t,
+  match find_identity (S f) mods cands t with
+  | Found j => In j (closure f mods cands) /\ snd j = t
+  | NotFound => forall j, In j (closure f mods cands) -> snd j <> t
+  | FuelOut => True
+  end.
+Proof. exact find_sound_complete. Qed.
+Print Assumptions C02_identity_lookup_exhaustive.
+
+(** with several bases the implementation accepts the names of the bases and of everything below
+    any of them (the union; this is the behaviour finding k=2 describes) *)
+Theorem C02_identity_lookup_union : forall mods ids t,
+  find_identity (find_fuel mods) mods ids t <> FuelOut ->
+  ((exists j, find_identity (find_fuel mods) mods ids t = Found j) <->
+   (exists j, (In j ids \/ In j (accepted_union mods ids)) /\ snd j = t)).
+Proof. exact lookup_union. Qed.
+Print Assumptions C02_identity_lookup_union.
+
+(** derivation without cycles (a measure decreasing along Identity.derived): never out of fuel *)
+Theorem C02_identity_lookup_never_out_of_fuel : forall (rank : iid -> nat) mods t,
+  (forall i j, In j (direct_derived mods i) -> (rank j < rank i)%nat) ->
+  forall f cands, (forall c, In c cands -> (rank c < f)%nat) ->
+  find_identity f mods cands t <> FuelOut.
+Proof. exact find_fuel_enough. Qed.
+Print Assumptions C02_identity_lookup_never_out_of_fuel.
+
+(** node.NewValue labels the value with the local part of the text it was given *)
+Theorem C02_identity_value_label : forall mods ids v lab,
+  ident_value (find_fuel mods) mods ids v = Some (Some lab) -> lab = value_local v.
+Proof. exact ident_value_label. Qed.
+
+(** finding k=5: the input lies in the region, model = what the code does, the oracle rejects it *)
+Theorem C02_kf5_base_itself_refuted :
+  find_identity (find_fuel mods_tr) mods_tr [i_tr "transport"] (T "transport") = Found (i_tr "transport")
+  /\ ~ In (i_tr "transport") (accepted_inter mods_tr [i_tr "transport"])
+  /\ known_find E_tr l_tr (model_probes E_tr l_tr [T "transport"]) = Some 5%nat
+  /\ corr_find E_tr l_tr (model_probes E_tr l_tr [T "transport"]) = true
+  /\ find_meets_spec E_tr l_tr [T "transport"] = false.
+Proof. exact kf_base_itself_refuted. Qed.
+Print Assumptions C02_kf5_base_itself_refuted.
+
+(** non-vacuity: transport <- tcp <- tls, transport <- udp <- dtls, other.  The hypotheses of the
+    theorems above are met (not out of fuel, the text is not the base's name, a decreasing measure
+    exists) and the identities below the second sibling are found. *)
+Example C02_identity_hyps_met :
+  find_identity (find_fuel mods_tr) mods_tr [i_tr "transport"] (T "dtls") <> FuelOut
+  /\ snd (i_tr "transport") <> T "dtls"
+  /\ In (i_tr "dtls") (accepted_inter mods_tr [i_tr "transport"])
+  /\ model_bases E_tr l_tr = Some [i_tr "transport"]
+  /\ corr_find E_tr l_tr (model_probes E_tr l_tr [T "tcp"; T "udp"; T "tls"; T "m:dtls"; T "other"; T "nosuch"]) = true
+  /\ find_meets_spec E_tr l_tr [T "tcp"; T "udp"; T "tls"; T "m:dtls"; T "other"; T "nosuch"] = true
+  /\ known_find E_tr l_tr (model_probes E_tr l_tr [T "tcp"; T "udp"; T "tls"; T "m:dtls"; T "other"; T "nosuch"]) = None.
+Proof. exact lookup_hyps_met. Qed.
+Print Assumptions C02_identity_hyps_met.
+
+Example C02_identity_measure_exists :
+  (forall i j, In j (direct_derived mods_tr i) -> (rank_tr j < rank_tr i)%nat)
+  /\ (forall c, In c [i_tr "transport"] -> (rank_tr c < find_fuel mods_tr)%nat).
+Proof. exact (conj rank_tr_decreases rank_tr_bound). Qed.
+Print Assumptions C02_identity_measure_exists.
+
+Example C02_identity_branching_lookup :
+  find_identity (find_fuel mods_tr) mods_tr [i_tr "transport"] (T "dtls") = Found (i_tr "dtls")
+  /\ find_identity (find_fuel mods_tr) mods_tr [i_tr "transport"] (T "udp") = Found (i_tr "udp")
+  /\ find_identity (find_fuel mods_tr) mods_tr [i_tr "transport"] (T "tls") = Found (i_tr "tls")
+  /\ find_identity (find_fuel mods_tr) mods_tr [i_tr "transport"] (T "other") = NotFound
+  /\ find_identity (find_fuel mods_tr) mods_tr [i_tr "tcp"] (T "dtls") = NotFound
+  /\ ident_value (find_fuel mods_tr) mods_tr [i_tr "transport"] (T "m:dtls") = Some (Some (T "dtls")).
+Proof. exact lookup_tr. Qed.
